@@ -16,6 +16,13 @@ CLAIMED = {
          "broadcast_isolated, caller_mutation_invisible, check_iff_unset, iterpairs_exact/sorted/nodup and the ValueTable map laws; the same model runs in the "
          "driver and is compared with real PairTables/ValueTables after every op of random histories incl. identity (`is`) probes.",
          "4 C14", "Lean 4 proof (heap-level refinement by induction over op lists) + differential correspondence"),
+ 'C13': ("Lean theorems about the MatrixArray model: binop_pointwise/binop_ok_iff (every operator x operand kind, element for element, incl. length-1 broadcast), "
+         "dot_is_matrix_mul/dot_is_Matrix_mul (Mathlib Matrix product per grid point), invert_spec (identity, under the external inverse's specification), "
+         "setPair_symmetric/getPair_either_order/unknown_type_error, space_rule (decision table), and at object level (explicit buffer store) reachable_inv "
+         "(distinct objects never share a buffer, any op sequence), outOfPlace_fresh, inPlace_only_left, inplace_eq_outofplace, inplace_seq_eq_outofplace_seq, "
+         "inPlace_rebind_frame; the model (with Gauss-Jordan for inv) runs in the driver and is compared after every op with the real objects (values, flags, "
+         "np.shares_memory classes) and with a per-matrix NumPy shadow.",
+         "4 C13", "Lean 4 proof (value-level algebra + object-store invariants by induction) + differential correspondence"),
 }
 NA = {}
 def main():
